@@ -665,3 +665,8 @@ def value_referrers(ctx, func):
                 if isinstance(n.value, ast.Name) and n.value.id == 'self' and f.cls is not None and func.cls is not None and (f.cls is func.cls or func.cls in f.cls.mro()):
                     out.append((f, n))
     return out
+
+
+def guards_under_lock(node, lock):
+    """The guards of node whose test expression is evaluated while ``lock`` is held."""
+    return [(e, pol) for e, pol in guards(node) if lock in locks_held(e)]
